@@ -243,7 +243,7 @@ func probeAutoAfterExplicit() (bool, string) {
 // TestHistories: one session, DDL/DML histories in all transaction forms.
 func TestHistories(t *testing.T) {
 	maxStmts := 40
-	vk.Check(t, 480, 24000, func(rt *rapid.T, c *vk.Case) {
+	vk.Check(t, 480, 16000, func(rt *rapid.T, c *vk.Case) {
 		h := newHarness(rt, c)
 		defer h.close()
 		later := h.setupSchema(rapid.IntRange(1, 3).Draw(rt, "nTables"), false)
@@ -270,12 +270,12 @@ func TestHistories(t *testing.T) {
 
 // TestConcurrentSessions: rounds of 2-4 sessions with their own transactions.
 func TestConcurrentSessions(t *testing.T) {
-	vk.Check(t, 320, 16000, func(rt *rapid.T, c *vk.Case) {
+	vk.Check(t, 1200, 32000, func(rt *rapid.T, c *vk.Case) {
 		h := newHarness(rt, c)
 		defer h.close()
 		h.setupSchema(rapid.IntRange(1, 2).Draw(rt, "nTables"), true)
 		h.seedRows()
-		rounds := rapid.IntRange(2, 5).Draw(rt, "rounds")
+		rounds := rapid.IntRange(3, 6).Draw(rt, "rounds")
 		for r := 0; r < rounds && !h.stop; r++ {
 			h.runRound(r)
 		}
